@@ -1,7 +1,8 @@
 /-
 C06 — model of the decision logic of Blockchain.AddBlock / addHeaders / verifyHeader /
-the in-block transaction loop (pkg/core/blockchain.go:1825-1947, 2885-2904, 2101-2113) and of the
-scratch-pool admission used by it (pkg/core/mempool/mem_pool.go:233-370, 586-657), as written.
+the in-block transaction loop (pkg/core/blockchain.go AddBlock, addHeaders, verifyHeader, storeBlock's
+next-header check) and of the scratch-pool admission used by it (pkg/core/mempool/mem_pool.go Add,
+checkTxConflicts), as written after the fixes d99d969, ec0103c, d0c3ec8, ab64b57.
 Core Lean only.
 
 Hashes, addresses, witnesses and account ids are natural numbers (opaque identifiers).
@@ -49,7 +50,7 @@ deriving DecidableEq, Repr
 
 inductive Err
   | indexFuture | indexOld | srFlag | prevUnknown | stateRoot | prevHash | hdrIndex
-  | timestamp | witness | hashMismatch | merkle | tx | store
+  | timestamp | witness | hashMismatch | merkle | dup | tx | store
 deriving DecidableEq, Repr
 
 /-- Everything the decision logic calls but does not decide itself. `L` = ledger state. -/
@@ -60,7 +61,7 @@ structure Env (L : Type) where
   balance : L → Nat → Nat                   -- GAS balance of a sender
   apply : L → Block → Option L              -- storeBlock's execution of the block; none = persist failure
   rootOf : L → Nat                          -- local state root
-  keep : L → Nat → Bool                     -- IsTxStillRelevant for a pooled tx after the block
+  keep : L → Tx → Bool                      -- IsTxStillRelevant for a pooled tx after the block
 
 /-- The node. `headers[i]` is the stored header of index `i`; header height = length - 1. -/
 structure Node (L : Type) where
@@ -68,7 +69,7 @@ structure Node (L : Type) where
   blockHeight : Nat
   headers : List Header
   ledger : L
-  pool : List Nat                           -- hashes of the mempool's verified transactions
+  pool : List Tx                            -- the mempool's verified transactions
 
 variable {L : Type}
 
@@ -121,37 +122,48 @@ def addHeaders (env : Env L) (s : Node L) (verify : Bool) (hs : List Header) : N
 
 def sumBy (f : Tx → Nat) (l : List Tx) : Nat := (l.map f).sum
 
-/-- mempool.Pool.Add into the scratch pool (mem_pool.go:233-370 with checkTxConflicts 586-657), for
+/-- pooled transactions that name `t` in a Conflicts attribute (checkTxConflicts step 1) -/
+def namedBy (p : List Tx) (t : Tx) : List Tx := p.filter (fun q => q.conflicts.contains t.id)
+/-- pooled transactions that `t` names in a Conflicts attribute (checkTxConflicts step 2) -/
+def namesOf (p : List Tx) (t : Tx) : List Tx := p.filter (fun q => t.conflicts.contains q.id)
+/-- the pooled transactions an addition of `t` evicts -/
+def evicted (p : List Tx) (t : Tx) : List Tx := namedBy p t ++ namesOf p t
+/-- network fees that `t` has to outbid -/
+def conflictFee (p : List Tx) (t : Tx) : Nat :=
+  sumBy (·.netFee) ((namedBy p t).filter (fun q => q.sender == t.sender)) + sumBy (·.netFee) (namesOf p t)
+/-- fees of the sender's pooled transactions, and the part of them freed by the evictions -/
+def pooledFee (p : List Tx) (t : Tx) : Nat := sumBy (·.fee) (p.filter (fun q => q.sender == t.sender))
+def freedFee (p : List Tx) (t : Tx) : Nat := sumBy (·.fee) ((evicted p t).filter (fun q => q.sender == t.sender))
+
+/-- mempool.Pool.Add into the scratch pool (mem_pool.go Add with checkTxConflicts), for
 single-signer non-Notary transactions, capacity never reached (capacity = number of block txs).
 `none` = any error (ErrDup, ErrConflictsAttribute, ErrInsufficientFunds, ErrConflict). -/
 def poolAdd (bal : Nat → Nat) (p : List Tx) (t : Tx) : Option (List Tx) :=
   if p.any (fun q => q.id == t.id) then none
-  else
-    let c1 := p.filter (fun q => q.conflicts.contains t.id)         -- pooled txs naming t
-    let c2 := p.filter (fun q => t.conflicts.contains q.id)         -- pooled txs named by t
-    if c2.any (fun q => q.sender != t.sender) then none
-    else
-      let cfee := sumBy (·.netFee) (c1.filter (fun q => q.sender == t.sender)) + sumBy (·.netFee) c2
-      if cfee != 0 && t.netFee ≤ cfee then none
-      else
-        let removed := c1 ++ c2
-        let mine := sumBy (·.fee) (p.filter (fun q => q.sender == t.sender))
-        let freed := sumBy (·.fee) (removed.filter (fun q => q.sender == t.sender))
-        if bal t.sender < t.fee then none
-        else if bal t.sender < t.fee + (mine - freed) then none
-        else some (p.filter (fun q => !(removed.any (fun x => x.id == q.id))) ++ [t])
+  else if (namesOf p t).any (fun q => q.sender != t.sender) then none
+  else if conflictFee p t != 0 && decide (t.netFee ≤ conflictFee p t) then none
+  else if bal t.sender < t.fee then none
+  else if bal t.sender < t.fee + (pooledFee p t - freedFee p t) then none
+  else some (p.filter (fun q => !((evicted p t).any (fun x => x.id == q.id))) ++ [t])
 
-/-- the loop at blockchain.go:1859-1878: returns false iff it stops with an error
-(only possible with VerifyTransactions). -/
+/-- the mempool shortcut of the loop: the transaction is pooled *with the same witnesses*
+(`TryGetValue(hash)` and `txWitnessesEqual`). -/
+def pooledSame (s : Node L) (t : Tx) : Bool := s.pool.any (fun q => q.id == t.id && q.wit == t.wit)
+
+/-- the transaction loop of AddBlock: returns false iff it stops with an error (only possible with
+VerifyTransactions). An addition that evicts another transaction of the block from the scratch pool
+is an error too (`mp.Count() != added`); without VerifyTransactions the loop goes on with the new pool. -/
 def txLoop (env : Env L) (s : Node L) : List Tx → List Tx → Bool
   | _, [] => true
   | p, t :: rest =>
     let r : Option (List Tx) :=
-      if s.pool.contains t.id then poolAdd (env.balance s.ledger) p t
+      if pooledSame s t then poolAdd (env.balance s.ledger) p t
       else if env.txValid s.ledger s.blockHeight t then poolAdd (env.balance s.ledger) p t
       else none
     match r with
-    | some p' => txLoop env s p' rest
+    | some p' =>
+      if p'.length == p.length + 1 then txLoop env s p' rest
+      else if s.cfg.verifyTx then false else txLoop env s p' rest
     | none => if s.cfg.verifyTx then false else txLoop env s p rest
 
 /-- storeBlock, blockchain.go:2101-2113: with state roots in headers and the next header already
@@ -169,7 +181,7 @@ def commit (env : Env L) (s : Node L) (b : Block) (l' : L) : Node L :=
       ledger := l',
       blockHeight := b.hdr.index,
       headers := s.headers.set b.hdr.index b.hdr,     -- StoreAsBlock rewrites the record under the block hash
-      pool := s.pool.filter (fun id => !(b.txs.any (fun t => t.id == id)) && env.keep l' id) }
+      pool := s.pool.filter (fun q => !(b.txs.any (fun t => t.id == q.id)) && env.keep l' q) }
 
 /-- storeBlock as far as acceptance is concerned (blockchain.go:1967-2164): execution, then the
 check of the next known header's PrevStateRoot, then the commit. -/
@@ -179,22 +191,37 @@ def storeBlock (env : Env L) (s : Node L) (b : Block) : Node L × Option Err :=
   | some l' =>
     if nextHeaderOK env s b.hdr.index l' then (commit env s b l', none) else (s, some .store)
 
-/-- blockchain.go:1842-1852: the header is either the next one (verify and record it) or already
-known (only its hash is compared with the recorded one). -/
+/-- AddBlock's header step: the header is either the next one (verify and record it) or already
+known. Then its hash is compared with the recorded one and, unless the witness is the recorded
+header's witness, the witness is verified against the previous header's NextConsensus (d99d969). -/
 def headerStep (env : Env L) (s : Node L) (b : Block) : Node L × Option Err :=
   if b.hdr.index == s.headerHeight + 1 then addHeaders env s (!s.cfg.skip) [b.hdr]
   else
     match s.headers[b.hdr.index]? with
-    | some kh => if kh.hash == b.hdr.hash then (s, none) else (s, some .hashMismatch)
     | none => (s, some .hashMismatch)
+    | some kh =>
+      if kh.hash != b.hdr.hash then (s, some .hashMismatch)
+      else if s.cfg.skip || kh.wit == b.hdr.wit then (s, none)
+      else
+        match s.lookup b.hdr.prevHash with
+        | none => (s, some .prevUnknown)
+        | some prev =>
+          if env.signedBy b.hdr.wit b.hdr.hash prev.nextConsensus then (s, none) else (s, some .witness)
 
-/-- blockchain.go:1853-1880: Merkle root, transaction loop (both skipped with SkipBlockVerification), storeBlock. -/
+/-- duplicate transaction hashes (ab64b57) -/
+def hasDup : List Nat → Bool
+  | [] => false
+  | x :: rest => rest.contains x || hasDup rest
+
+/-- AddBlock's body: Merkle root, duplicate check, transaction loop (all skipped with
+SkipBlockVerification), storeBlock. -/
 def bodyStep (env : Env L) (s : Node L) (b : Block) : Node L × Option Err :=
   if !s.cfg.skip && b.hdr.merkleRoot != env.merkle (b.txs.map (·.id)) then (s, some .merkle)
+  else if !s.cfg.skip && hasDup (b.txs.map (·.id)) then (s, some .dup)
   else if !s.cfg.skip && !txLoop env s [] b.txs then (s, some .tx)
   else storeBlock env s b
 
-/-- Blockchain.AddBlock (blockchain.go:1825-1881). Returns the node afterwards and the error, if any. -/
+/-- Blockchain.AddBlock. Returns the node afterwards and the error, if any. -/
 def addBlock (env : Env L) (s : Node L) (b : Block) : Node L × Option Err :=
   if s.blockHeight + 1 != b.hdr.index then
     (s, some (if b.hdr.index > s.blockHeight + 1 then .indexFuture else .indexOld))
